@@ -1,7 +1,7 @@
 CONSTANTS
   Table = "doc"
-  MaxOps = 3
-  Pool = "small"
+  MaxOps = 2
+  Pool = "full"
   MinSize = 0
   Family = "tree"
   WordLen = 0
